@@ -1,8 +1,12 @@
-(* C13 -- interrupt / STOP / END are transparent under CONT; slicing does not matter. *)
-From BL Require Import Base.Prelude Mach.Val Mach.Compile Mach.Runtime.
+(* C13 -- interrupt / STOP / END are transparent under CONT; slicing does not matter.
+   Statements only; proofs in Proofs/Slicing.v.  `exec_loop_x` is the model's execute_loop with the reason for
+   stopping made visible (None = the instruction budget ran out); C13_loop_is_model ties it to the model's own loop.
+   Proved: any way of cutting a run into budgets gives the same state and the same first event as one budget of
+   the same total -- for every program, state and cut.  NOT proved: the CONT half (that STOP/END/interrupt
+   followed by CONT reaches the state of the uninterrupted run); that half is checked on runs by the C13 monitor. *)
+From BL Require Import Base.Prelude Mach.Val Mach.Compile Mach.Listing Mach.Runtime Proofs.Slicing.
 Local Open Scope N_scope.
 
-(* interrupt() saves exactly the state and program counter that CONT restores *)
 Theorem C13_interrupt_saves : forall r, r_pc r < r_entry r ->
   let r' := rt_interrupt r in
   r_cont r' = r_state r /\ r_cont_pc r' = r_pc r /\ r_stack r' = r_stack r /\ r_vars r' = r_vars r
@@ -13,3 +17,35 @@ Proof.
   cbn. repeat split; reflexivity.
 Qed.
 Print Assumptions C13_interrupt_saves.
+
+Theorem C13_loop_is_model : forall O fuel h r,
+  exec_loop O fuel h r = (fst (exec_loop_x O fuel h r), match snd (exec_loop_x O fuel h r) with
+                                                        | Ok x => Ok (ev_or_running x)
+                                                        | Err e => Err e | Panic => Panic | Hang => Hang
+                                                        end).
+Proof. exact exec_loop_x_loop. Qed.
+Print Assumptions C13_loop_is_model.
+
+Theorem C13_split : forall O n m h r,
+  exec_loop_x O (n + m) h r = match exec_loop_x O n h r with (r1, Ok None) => exec_loop_x O m h r1 | other => other end.
+Proof. exact exec_loop_split. Qed.
+Print Assumptions C13_split.
+
+Theorem C13_slicing_irrelevant : forall O qs h r, run_slices O qs h r = exec_loop_x O (fold_right Nat.add 0%nat qs) h r.
+Proof. exact slicing_irrelevant. Qed.
+Print Assumptions C13_slicing_irrelevant.
+
+Theorem C13_same_total_same_run : forall O qs qs' h r,
+  fold_right Nat.add 0%nat qs = fold_right Nat.add 0%nat qs' -> run_slices O qs h r = run_slices O qs' h r.
+Proof. exact same_total_same_run. Qed.
+Print Assumptions C13_same_total_same_run.
+
+(* at the API: while the machine stays in a running state between two calls, execute(n+m) = execute(n); execute(m) *)
+Theorem C13_execute_split : forall O n m r r1,
+  running_state (r_state r) = true -> ls_dir_errors (r_listing r) = [] ->
+  let h := match ls_ind_errors (r_listing r) with [] => false | _ => true end in
+  exec_loop_x O (N.to_nat n) h r = (r1, Ok None) ->
+  running_state (r_state r1) = true -> r_listing r1 = r_listing r ->
+  rt_execute O r n = Ok (r1, EvRunning) /\ rt_execute O r (n + m) = rt_execute O r1 m.
+Proof. exact execute_split. Qed.
+Print Assumptions C13_execute_split.
